@@ -998,6 +998,9 @@ fn run_session(ctx: &mut Ctx, idx: usize, r: &mut Rng, discards: &mut u64, haz: 
     let mut history: Vec<String> = Vec::new();
     let session_start = *r.pick(&[1usize, 5, 10, 10, 100]);
     let mut differs = 0;
+    // (line numbers an earlier call of this session deleted): a later call that deletes NOTHING (level 0/1, or no
+    // deletable REM line) must still not see them -- the case in which a reset hidden behind "nothing to map" is skipped
+    let mut deleted_before: BTreeSet<usize> = BTreeSet::new();
     for k in 0..ncalls {
         let start = if r.chance(70) { Some(session_start) } else { None };
         let failing = k + 1 < ncalls && r.chance(15);
@@ -1016,6 +1019,14 @@ fn run_session(ctx: &mut Ctx, idx: usize, r: &mut Rng, discards: &mut u64, haz: 
                 short_res(&rs), short_res(&rf), history.join(" ; "));
             ctx.out.oracle(same, "c17-object-reuse", "c17/object-reuse/result-differs", &case);
             history.push(format!("L{} {:?}", level, prog));
+            if let Res::Ok(out) = &rf {
+                let (i, o) = (observe(&prog), observe(out));
+                let gone: Vec<usize> = i.nums.iter().filter(|n| !o.nums.contains(n)).cloned().collect();
+                if gone.is_empty() || level < 2 {
+                    if !deleted_before.is_empty() { ctx.out.count("session/call-deleting-nothing-after-deleting-call"); }
+                    if i.refs.iter().any(|r| deleted_before.contains(r)) { ctx.out.count("session/call-deleting-nothing-with-reference-to-earlier-deleted-line"); }
+                } else if level == 2 { deleted_before.extend(gone); }
+            }
             results[level] = Some(rs);
             ctx.out.count(if failing { "session/failed-call" } else { "session/call" });
         }
